@@ -27,4 +27,28 @@ def defaultBackendCfg (v : Variant) (backendConfig altered : Cfg) : Cfg :=
 def defaultBackendName (v : Variant) (failoverName altered : String) : String :=
   if backendCfgPassthrough v && backendCfgIdentity v then failoverName else altered
 
+/-- What a context exposes to a builder. -/
+structure CtxView where
+  cancellable : Bool            -- Done() != nil
+  err : Option Err              -- Err()
+  deadline : Option Time
+  value : Nat → Option Nat      -- Value(key)
+
+/-- `detachedContext{parent}` of context.go, method by method as the translator read them (`Gen.detached*`: each method is a
+    single constant `return` — `Value` forwards to the parent — and the struct embeds nothing that would promote methods);
+    where a fact does not hold the parent shows through. -/
+def detach (p : CtxView) : CtxView :=
+  { cancellable := if Gen.detachedNeverDone then false else p.cancellable
+    err := if Gen.detachedNoErr then none else p.err
+    deadline := if Gen.detachedNoDeadline then none else p.deadline
+    value := if Gen.detachedForwardsValues then p.value else fun _ => none }
+
+def ctxSyncDetaches : Variant → Bool
+  | .failover => Gen.ctxSyncDetaches
+  | .failoverOf => Gen.ctxSyncDetachesOf
+
+/-- The context `ctxSync` hands to a background build (`detached = true` in the machine). -/
+def bgBuildCtx (v : Variant) (caller : CtxView) : CtxView :=
+  if ctxSyncDetaches v then detach caller else caller
+
 end Cache
